@@ -196,6 +196,7 @@ def unit_relational(which, tier=None, seed=None):
         fn = I.lookup_qual(f"{MOD}:{name}")
         n = f.len_term()
         S.names.update(a=a, b=b, n=n)
+        st["f"] = f
         if which == "dev":
             # trusted instance: the mean is linear,  mean(a f + b) = a mean(f) + b  (first 10 % of the curve)
             nb = z3.ToInt(z3.ToReal(n) * z3.RealVal("1/10"))
@@ -231,6 +232,17 @@ def unit_relational(which, tier=None, seed=None):
                         fact = x2 == a * x1 + b
                         if S.ensure(f"lemma.{nm}_of_scaled_force", fact):
                             hints.append(fact)
+                    # every further min / max symbol of the two calls (the code may evaluate an extremum once or
+                    # several times) equals the first of its call -- each a consequence of the defining axioms;
+                    # given to the pointwise lemma as hints when the solver confirms them
+                    from ..engine.prove import solve as _solve
+                    for group, first, last in ((mins, mins[0], mins[-1]), (maxs, maxs[0], maxs[-1])):
+                        half = len(group) // 2
+                        for k_, sym in enumerate(group[1:-1], start=1):
+                            fact = sym == (first if k_ < half else last)
+                            st__, *_rest = _solve(list(S.I.pc) + list(S.I.axioms_path), fact)
+                            if st__ == "discharged":
+                                hints.append(fact)
                     args = [r for r in S.I.ghost.get("arg_reductions", []) if r[0] == "argmin"]
                     if len(args) >= 2 and mins[0] is not None:
                         (_, j1, fn1, n1), (_, j2, fn2, n2) = args[0], args[-1]
@@ -238,6 +250,16 @@ def unit_relational(which, tier=None, seed=None):
                         # pointwise: the rotated normalised curves coincide (non-constant force)
                         pw = z3.Implies(z3.And(i >= 0, i < n1, maxs[0] != mins[0]),
                                         V.rterm(fn2(i)) == V.rterm(fn1(i)))
+                        # arithmetic lemma (its own obligation, then a hint): a common positive factor cancels in
+                        # a quotient -- instance for the normalised force of sample i
+                        fi = st["f"].uf(i)
+                        p_, q_ = fi - mins[0], maxs[0] - mins[0]
+                        cancel = z3.Implies(q_ != 0, (a * p_) / (a * q_) == p_ / q_)
+                        # (decided on its own: pure real arithmetic, no array axioms in the context)
+                        st_c, be_c, dt_c, _mc, det_c = _solve([a > 0], cancel)
+                        S.clause("lemma.common_factor_cancels").add(st_c, be_c, dt_c, det_c)
+                        if st_c == "discharged":
+                            hints.append(cancel)
                         if S.ensure("lemma.normalised_curves_coincide", pw, extra=hints, timeout_ms=120000):
                             hints = [z3.ForAll([i], pw)]     # generalisation of the arbitrary i
                         hints.append(maxs[0] != mins[0])
